@@ -752,7 +752,6 @@ func checkStreamingFlag(c *Ctx, gen *packages.Package) {
 		fmt.Sprintf("HasStreamingResponse is raised from %d of the 2 response lists (success responses, all status-code responses): a streamed (type: file) response on a code outside the list makes the generated client reader use a `writer` field that its struct does not declare — the client does not compile", len(lists)))
 }
 
-
 // optionalSegments lists, in order of emission, the guards (relative to the guards in force at
 // start) of the conditionally emitted pieces of l.Text[start:end].
 func optionalSegments(l *tmpl.Linear, start, end int) []string {
@@ -823,7 +822,6 @@ func checkCallSignature(c *Ctx, rule string, ev *tmpl.Evaluator) {
 			fmt.Sprintf("optional pieces are emitted as [%s] but the client method declares [%s]: for an operation raising both flags the generated code passes the arguments in the wrong positions and does not compile", strings.Join(s.segs, " ; "), strings.Join(ref.segs, " ; ")))
 	}
 }
-
 
 // checkFoldedPatterns: ManglePackageName lower-cases what it is given (swag.ToFileName), so a
 // pattern that classifies a name before it is mangled (the vN → versionN rename) must see the
@@ -911,7 +909,6 @@ func checkFoldedPatterns(c *Ctx, rule string, gen *packages.Package) {
 		c.Unk(rule, "patterns applied before ManglePackageName", "", "no instance found (expected versionedPkgRex in analyzeTags)")
 	}
 }
-
 
 // checkVersionedImports: the go tools assume that the package behind an import path ending in
 // /vN is named after the element before it, unless they can read the package from disk. The
